@@ -290,7 +290,7 @@ Definition ciba_ok (w : world) (now : Z) (r : treq) (st st' : store) : Prop :=
     snd (run_seq (authenticated w (t_cred r)) st) = Some c /\
     a_client s = c_id c /\
     geb now (a_expires s) = false /\
-    t_ba r = BaApprove /\
+    ba_approves (t_ba r) = true /\
     c_ciba_mode c <> CibaPush.
 
 Lemma ciba_grant_post w n now r st :
@@ -307,6 +307,7 @@ Proof.
   all: intros _; match goal with s0 : asession, c0 : client |- _ => exists s0, c0 end; repeat split; auto.
   all: try client_eq.
   all: try congruence.
+  all: match goal with E : t_ba _ = _ |- ba_approves _ = true => rewrite E; reflexivity end.
 Qed.
 
 
